@@ -115,6 +115,13 @@ MENU = {
     "faceeval": lambda w: pf.faceeval(np.abs, w.u),
 }
 MAY_CHANGE = {"solvePDE": ("sol",), "solvePDE_prebuilt": ("sol",)}
+DELIBERATE_SHARING = {"CellVariable": ("bc", "phi.BCs"), "CellVariable_ghosts": (), "solveExplicitPDE": ("bc", "phi.BCs"),
+                      "solvePDE": ("sol",), "solvePDE_prebuilt": ("sol",)}
+PURE = [n for n in ("diffusionTerm", "convectionTerm", "convectionUpwindTerm", "convectionUpwindTerm_dir",
+                    "convectionTVDupwindRHSTerm", "linearSourceTerm", "constantSourceTerm", "transientTerm", "transientTerm_alpha",
+                    "gradientTerm", "gradientTermFixedBC", "divergenceTerm", "linearMean", "arithmeticMean", "geometricMean",
+                    "harmonicMean", "upwindMean", "boundaryConditionsTerm", "cellLocations", "faceLocations", "copy",
+                    "arith", "celleval", "faceeval")]
 
 
 def arrays_of(obj, prefix, out, depth=0):
@@ -254,15 +261,32 @@ def _call_checked(w, name, seq, res, seen):
             if a.size and np.shares_memory(ra, a):
                 if name in ("solvePDE", "solvePDE_prebuilt") and n.startswith("sol"):
                     continue
-                if not n.startswith("mesh"):
-                    # sharing a BC object / a user-supplied array with an input is by design
-                    # (constructors take them by reference); the property is about grid storage
+                if not n.startswith("mesh") and name in DELIBERATE_SHARING and \
+                        any(n.startswith(pfx) for pfx in DELIBERATE_SHARING[name]):
+                    # constructors take a BC object / a ghost-including user array by reference and
+                    # solveExplicitPDE hands its input's BC object to its result: by design
                     continue
                 k = "C15:aliases_%s:%s" % ("mesh" if n.startswith("mesh") else "input", name)
                 if k not in seen:
                     seen.add(k)
                     F.append({"key": k, "msg": "%s on %s returns %s sharing memory with %s" % (name, gid, rn, n),
                               "detail": {"sequence": seq + [name], "grid": gid}})
+    # two successive calls must return separately stored results (no memoised/aliased objects)
+    if name in PURE:
+        r2 = MENU[name](w)
+        a1, a2 = [], []
+        arrays_of(r, "r", a1)
+        arrays_of(r2, "r", a2)
+        for (n1, x), (n2, y) in zip(a1, a2):
+            if n1.startswith("r.domain") or ".domain." in n1 or x.size == 0:
+                continue
+            if x is y or np.shares_memory(x, y):
+                k = "C15:repeated_calls_alias:%s" % name
+                if k not in seen:
+                    seen.add(k)
+                    F.append({"key": k, "msg": "two calls of %s on %s return results sharing storage (%s): an in-place edit of one corrupts the other"
+                                               % (name, gid, n1), "detail": {"sequence": seq + [name, name], "grid": gid}})
+                break
     return r
 
 
